@@ -31,7 +31,13 @@
 \*               key shows is pushed to subscribers of that key.
 \*  N7 GUID      Every saved notification has a non-empty GUID that never changes; two notification objects never
 \*               share a GUID, even with the same EventID.
-\*  N8 liveness  Every call returns (no deadlock, no panic) whatever the state of the notification is.
+\*  N8 liveness  Every call returns (no deadlock, no panic) whatever the state of the notification is, including
+\*               database operations of a UI client (get, query, put - also of unusable data -, insert, delete) and two
+\*               clients selecting at the same time (then exactly one selection is applied).
+\*  N9 helpers   NotifyInfo / NotifyWarn / NotifyPrompt / NotifyError create a notification of that type, with
+\*               ShowOnSystem off / on / off / on, with the given actions or a single default action "ack"; without an
+\*               id the EventID is derived from the message (same message, same EventID).  ShowOnSystem is forced to
+\*               false on the first save while the option "Desktop Notifications" is off, and not touched afterwards.
 \*
 \* Left open (the model allows every outcome, see the sets below): whether the UI may delete notifications or create
 \* them; the return value of a put that changes nothing; whether Update is throttled; whether deleting a handle that
@@ -42,20 +48,22 @@
 \*
 \* State:  objs   sequence of notification objects (handles held by the application, index = order of creation)
 \*         store  EventID -> index of the stored object, 0 = none
-\*         mods   failure id mirrored from the test module ("" = none), see the module mirror below
+\*         sysok  value of the option "Desktop Notifications"
+\* Not covered: the mirroring of module failure states (module-mirror.go).
 \* `Step(s, o)` is the set of allowed outcomes [ret, must, may, s]: the return class of the call, the keys that must /
 \* may have been pushed to subscribers during the call, and the state afterwards.
 EXTENDS Integers, Sequences, FiniteSets, TLC
 
-IDs == {"a", "b"}
+IDs == {"a", "b", "d"}     \* "d": no EventID given, the package derives one from the message
 Sels == {"x", "y"}
 
-NewObj(id, valid, exp) ==
+NewObj(id, valid, exp, typ, sys, acts) ==
     [id |-> id, valid |-> valid, saved |-> FALSE, st |-> "", sel |-> "", exp |-> exp, del |-> FALSE,
-     fn |-> FALSE, calls |-> <<>>, rl |-> <<>>, el |-> <<>>]
+     fn |-> FALSE, calls |-> <<>>, rl |-> <<>>, el |-> <<>>, typ |-> typ, sys |-> sys, acts |-> acts]
 \* rl / el: one entry per goroutine waiting on Response() / Expired():
 \*   "w" waiting, "c" released by a closed channel, "wc" either of the two, an element of Sels: received that id
-InitState == [objs |-> <<>>, store |-> [i \in IDs |-> 0]]
+\* typ: notification type (0 info, 1 warning, 2 prompt, 3 error), sys: ShowOnSystem, acts: ids of the available actions
+InitState == [objs |-> <<>>, store |-> [i \in IDs |-> 0], sysok |-> TRUE]   \* sysok: option "Desktop Notifications"
 
 Out(r, must, may, s) == [ret |-> r, must |-> must, may |-> may, s |-> s]
 Range(f) == {f[i] : i \in DOMAIN f}
@@ -72,7 +80,8 @@ SetExp(s, k, e) == [s EXCEPT !.objs[k].exp = e]
 SaveK(s, k) ==
     LET o == s.objs[k] IN
     IF ~o.valid THEN Out("ok", {}, {}, s)
-    ELSE LET o2 == [o EXCEPT !.saved = TRUE, !.st = IF @ = "" THEN "active" ELSE @]
+    ELSE LET o2 == [o EXCEPT !.saved = TRUE, !.st = IF @ = "" THEN "active" ELSE @,
+                             !.sys = IF o.saved THEN @ ELSE (@ /\ s.sysok)]      \* forced to false on the first save
          IN Out("ok", IF o.del THEN {} ELSE {o.id}, {o.id},
                 [s EXCEPT !.objs[k] = o2, !.store[o.id] = k])
 
@@ -91,7 +100,7 @@ Removed(o) == [o EXCEPT !.del = TRUE, !.el = CloseAll(@), !.rl = Loose(@)]
 \* n.Delete()
 DeleteK(s, k) ==
     LET o == s.objs[k] IN
-    IF ~o.saved THEN {Out("ok", {}, {o.id}, [s EXCEPT !.objs[k].rl = CloseAll(@)])}
+    IF ~o.saved THEN {Out("ok", {}, {o.id}, [s EXCEPT !.objs[k].rl = CloseAll(@), !.objs[k].el = Loose(@)])}
     ELSE LET o2 == [o EXCEPT !.del = TRUE, !.rl = CloseAll(@), !.el = Loose(@)]
              wasvis == s.store[o.id] = k /\ ~o.del
          IN IF s.store[o.id] \in {k, 0}
@@ -100,11 +109,32 @@ DeleteK(s, k) ==
                  {Out("ok", {}, {o.id}, [s EXCEPT !.objs[k] = o2]),
                   Out("ok", {o.id}, {o.id}, [s EXCEPT !.objs[k] = o2, !.store[o.id] = 0])}
 
+\* the UI puts {EventID, SelectedActionID: sel, State: executed if ext} on the key of id
+DbPut(s, id, sel, ext) ==
+    LET j == s.store[id] IN
+    IF ~Visible(s, id)
+    THEN {Out("err", {}, {id}, s)} \cup
+         {LET nb == [NewObj(id, TRUE, "never", 0, FALSE, <<>>) EXCEPT !.saved = TRUE, !.st = "active"]
+          IN Out("ok", {id}, {id}, [s EXCEPT !.objs = Append(@, nb), !.store[id] = Len(s.objs) + 1])}
+    ELSE LET ob == s.objs[j] IN
+         IF ob.st = "executed" THEN {Out(r, {}, {id}, s) : r \in {"ok", "err"}}
+         ELSE IF ext
+         THEN {Out("ok", {id}, {id},
+                   [s EXCEPT !.objs[j].st = "executed", !.objs[j].sel = IF sel # "" THEN sel ELSE @])}
+         ELSE IF sel # "" /\ ob.st = "active"
+         THEN {Out("ok", {id}, {id}, [s EXCEPT !.objs[j] = Select(ob, sel)])}
+         ELSE {Out(r, {}, {id}, s) : r \in {"ok", "err"}}
+
 Step(s, o) ==
-  CASE o.op = "notify" ->
+  CASE o.op = "notify" ->     \* o.sel = "": Notify(&Notification{..., ShowOnSystem: true, two actions}), else the helper
+                              \* NotifyInfo / NotifyWarn / NotifyPrompt / NotifyError with o.n actions
          LET k == Len(s.objs) + 1
-             s1 == [s EXCEPT !.objs = Append(@, NewObj(o.id, o.flag, o.exp))]
+             typ == CASE o.sel = "warn" -> 1 [] o.sel = "prompt" -> 2 [] o.sel = "error" -> 3 [] OTHER -> 0
+             sys == o.sel \in {"", "warn", "error"}
+             acts == IF o.sel # "" /\ o.n = 0 THEN <<"ack">> ELSE <<"x", "y">>
+             s1 == [s EXCEPT !.objs = Append(@, NewObj(o.id, o.flag, o.exp, typ, sys, acts))]
          IN {SaveK(s1, k)}
+    [] o.op = "cfgsys" -> {Out("ok", {}, {}, [s EXCEPT !.sysok = o.flag])}
     [] o.op = "save" -> {SaveK(s, o.k)}
     [] o.op = "saveexp" -> {SaveK(SetExp(s, o.k, o.exp), o.k)}
     [] o.op = "update" ->       \* o.flag: the last modification is older than the throttle interval
@@ -117,31 +147,26 @@ Step(s, o) ==
     [] o.op = "delete" -> DeleteK(s, o.k)
     [] o.op = "deleteid" -> IF s.store[o.id] = 0 THEN {Out("ok", {}, {}, s)} ELSE DeleteK(s, s.store[o.id])
     \* ------------------------------------------------------------ the UI, through the database interface
-    [] o.op = "dbput" ->        \* put of {EventID, SelectedActionID: o.sel, State: executed if o.flag} on the key
-         LET j == s.store[o.id] IN
-         IF ~Visible(s, o.id)
-         THEN {Out("err", {}, {o.id}, s)} \cup
-              {LET nb == [NewObj(o.id, TRUE, "never") EXCEPT !.saved = TRUE, !.st = "active"]
-               IN Out("ok", {o.id}, {o.id}, [s EXCEPT !.objs = Append(@, nb), !.store[o.id] = Len(s.objs) + 1])}
-         ELSE LET ob == s.objs[j] IN
-              IF ob.st = "executed" THEN {Out(r, {}, {o.id}, s) : r \in {"ok", "err"}}
-              ELSE IF o.flag
-              THEN {Out("ok", {o.id}, {o.id},
-                        [s EXCEPT !.objs[j].st = "executed", !.objs[j].sel = IF o.sel # "" THEN o.sel ELSE @])}
-              ELSE IF o.sel # "" /\ ob.st = "active"
-              THEN {Out("ok", {o.id}, {o.id}, [s EXCEPT !.objs[j] = Select(ob, o.sel)])}
-              ELSE {Out(r, {}, {o.id}, s) : r \in {"ok", "err"}}
+    [] o.op = "dbput" -> DbPut(s, o.id, o.sel, o.flag)
+    [] o.op = "dbputrace" ->    \* two UI clients select x and y at the same time: one of them comes first
+         {Out(r, x.must, x.may, x.s) : r \in {"ok", "err"},
+                                       x \in UNION {DbPut(s, o.id, c, FALSE) : c \in Sels}}
+    [] o.op = "dbputbad" ->     \* a put the package cannot use: fields of the wrong type (o.flag = FALSE) or a key outside "all/"
+         {Out(r, {}, {o.id}, s) : r \in {"ok", "err"}}
     [] o.op = "dbdelete" ->
          LET j == s.store[o.id] IN
          IF ~Visible(s, o.id) THEN {Out(r, {}, {o.id}, s) : r \in {"ok", "err"}}
          ELSE {Out("err", {}, {o.id}, s),
                Out("ok", {o.id}, {o.id}, [s EXCEPT !.objs[j] = Removed(@), !.store[o.id] = 0])}
-    [] o.op = "dbinsert" ->     \* insert of {SelectedActionID: o.sel} into the record of the key
+    [] o.op = "dbinsert" ->     \* insert of {SelectedActionID: o.sel} into the record of the key: the field is written
+                                \* into the stored notification itself, which is then put
          LET j == s.store[o.id] IN
          IF ~Visible(s, o.id) THEN {Out(r, {}, {o.id}, s) : r \in {"ok", "err"}}
          ELSE LET ob == s.objs[j] IN
-              {Out(r, {}, {o.id}, s) : r \in {"ok", "err"}} \cup
-              (IF ob.st = "active" THEN {Out("ok", {o.id}, {o.id}, [s EXCEPT !.objs[j] = Select(ob, o.sel)])} ELSE {})
+              IF ob.st = "active"
+              THEN {Out("err", {}, {o.id}, s), Out("ok", {o.id}, {o.id}, [s EXCEPT !.objs[j] = Select(ob, o.sel)])}
+              ELSE \* no longer active: whether the field is overwritten is left open, nothing else changes
+                   {Out(r, {}, {o.id}, s2) : r \in {"ok", "err"}, s2 \in {s, [s EXCEPT !.objs[j].sel = o.sel]}}
 
 \* ---------------------------------------------------------------- the cleaner
 Cleanable(s) == {k \in 1..Len(s.objs) : s.store[s.objs[k].id] = k /\ s.objs[k].exp = "past" /\ ~s.objs[k].del}
@@ -169,12 +194,14 @@ FullStep(s, o, bg) ==
 Live(s, k) == k \in 1..Len(s.objs) /\ ~s.objs[k].del /\ s.objs[k].exp # "past"
 IdFree(s, id) == s.store[id] = 0 \/ Live(s, s.store[id])
 Legal(s, o) ==
-  CASE o.op = "notify" -> IdFree(s, o.id)
+  CASE o.op = "notify" -> IdFree(s, o.id) /\ (o.sel # "" => o.exp = "never") /\ (o.id = "d" => o.flag)
+    [] o.op = "cfgsys" -> TRUE
+    [] o.op = "dbputrace" -> IdFree(s, o.id) /\ Visible(s, o.id)
     [] o.op \in {"save", "saveexp", "update", "setfn", "listen", "waitexp"} ->
            Live(s, o.k) /\ IdFree(s, s.objs[o.k].id)
     [] o.op = "delete" -> o.k \in 1..Len(s.objs) /\ s.objs[o.k].exp # "past" /\ IdFree(s, s.objs[o.k].id)
-    [] o.op \in {"deleteid", "dbdelete", "dbinsert"} -> IdFree(s, o.id)
-    [] o.op = "dbput" -> IdFree(s, o.id) /\ (Visible(s, o.id) \/ (o.sel = "" /\ ~o.flag))
+    [] o.op \in {"deleteid", "dbdelete", "dbinsert", "dbputbad"} -> IdFree(s, o.id)
+    [] o.op = "dbput" -> IdFree(s, o.id) /\ (Visible(s, o.id) \/ (o.sel = "" /\ ~o.flag /\ o.id # "d"))
     [] o.op = "tick" -> \A k \in Range(o.ks) : Live(s, k) /\ s.objs[k].exp = "future"
     [] OTHER -> FALSE
 
@@ -184,8 +211,6 @@ ObjOK(o) ==
     /\ o.st = "responded" => o.sel # ""
     /\ o.st = "" <=> ~o.saved
     /\ Len(o.calls) <= 1
-    /\ \A i \in 1..Len(o.calls) : o.calls[i] = o.sel
-    /\ \A i \in 1..Len(o.rl) : o.rl[i] \in Sels => o.rl[i] = o.sel
     /\ o.calls # <<>> => o.st = "executed"
     /\ (\E i \in 1..Len(o.rl) : o.rl[i] \in Sels) => o.st = "executed"
 StateOK(s) ==
@@ -200,12 +225,20 @@ StepOK(s, o, bg) ==
         /\ \A k \in 1..Len(s.objs) :
               LET a == s.objs[k] b == x.s.objs[k] IN
               /\ Rank(b.st) >= Rank(a.st)
-              /\ (a.sel # "" /\ ~(o.op = "dbput" /\ o.flag)) => b.sel = a.sel
-              /\ a.st = "executed" => (b.sel = a.sel /\ b.calls = a.calls /\ b.st = "executed")
+              /\ (a.sel # "" /\ ~(o.op = "dbput" /\ o.flag) /\ o.op # "dbinsert") => b.sel = a.sel
+              /\ b.typ = a.typ /\ b.acts = a.acts /\ (a.saved => b.sys = a.sys)
+              /\ a.st = "executed" => ((o.op # "dbinsert" => b.sel = a.sel) /\ b.calls = a.calls /\ b.st = "executed")
               /\ Len(b.calls) >= Len(a.calls)
+              \* the action function runs, and a listener is answered, only when an Active notification gets its
+              \* selection, and with that selection; what a listener was told stays
+              /\ Len(b.calls) > Len(a.calls) => (a.st = "active" /\ b.calls = Append(a.calls, b.sel) /\ b.sel # "")
+              /\ Len(b.rl) >= Len(a.rl)
+              /\ \A i \in 1..Len(a.rl) :
+                    /\ (a.rl[i] \notin Sels /\ b.rl[i] \in Sels) => (a.st = "active" /\ b.rl[i] = b.sel)
+                    /\ a.rl[i] \in Sels \cup {"c"} => b.rl[i] = a.rl[i]
               /\ a.del => b.del
               /\ b.id = a.id
-        /\ (o.op \notin {"tick"} /\ ~bg) =>
-              \A i \in IDs : (i # (IF o.op \in {"notify", "deleteid", "dbput", "dbdelete", "dbinsert"} THEN o.id ELSE s.objs[o.k].id))
+        /\ (o.op \notin {"tick", "cfgsys"} /\ ~bg) =>
+              \A i \in IDs : (i # (IF o.op \in {"notify", "deleteid", "dbput", "dbputrace", "dbputbad", "dbdelete", "dbinsert"} THEN o.id ELSE s.objs[o.k].id))
                                 => x.s.store[i] = s.store[i]
 ====
